@@ -8,7 +8,8 @@ from mc import docspace, resolver as R
 from mc.ey import get_citations, resolve_citations, short_exc
 from mc.kernel import Stats, h64
 
-L_FULL = {"quick": 3, "thorough": 4}
+L_FULL = {"quick": 3, "thorough": 3}  # the whole alphabet (53 symbols): 53^4 would be 7.9 million sequences
+L_MID = 4  # thorough only: length 4 over the 32 most interacting symbols
 L_CORE = {"quick": 4, "thorough": 5}
 
 DOC_DEPTH = {"quick": 3, "thorough": 4}
@@ -85,7 +86,7 @@ def setup(tier, seed):
 
 
 def bounds(tier):
-    return {"alphabet": R.NAMES, "L_full": L_FULL[tier], "core_alphabet": R.CORE12, "L_core": L_CORE[tier], "bfs": "fix-point over " + str(len(bfs_names(tier))) + " symbols", "doc_fragments": len(AR), "doc_depth": DOC_DEPTH[tier], "pumped": {"head_len": 3, "fillers": PUMP_FILLERS, "copies": PUMP_LENGTHS[tier]}}
+    return {"alphabet": R.NAMES, "L_full": L_FULL[tier], "core_alphabet": R.CORE12, "L_core": L_CORE[tier], "mid_alphabet": R.MID32 if tier == "thorough" else None, "L_mid": L_MID if tier == "thorough" else None, "bfs": "fix-point over " + str(len(bfs_names(tier))) + " symbols", "doc_fragments": len(AR), "doc_depth": DOC_DEPTH[tier], "pumped": {"head_len": 3, "fillers": PUMP_FILLERS, "copies": PUMP_LENGTHS[tier]}}
 
 
 def shards(tier, seed):
@@ -99,6 +100,11 @@ def shards(tier, seed):
     for a in range(m):
         for b in range(m):
             out.append({"part": "seq-core", "alpha": "core", "prefix": [a, b], "L": L_CORE[tier], "minlen": L_FULL[tier] + 1})
+    if tier == "thorough":
+        mid = R.MID32
+        for a in range(len(mid)):
+            for b in range(len(mid)):
+                out.append({"part": "seq-mid", "alpha": "mid", "prefix": [a, b], "L": L_MID, "minlen": L_FULL[tier] + 1})
     for sh in docspace.shards_for(AR, DOC_DEPTH[tier], 1):
         out.append({"part": "docs", **sh, "depth": DOC_DEPTH[tier]})
     for a in range(m):
@@ -236,8 +242,8 @@ def run_shard(sh, pid):
             st.extra["bfs_canon_unsound"] = len(unsound)
             st.extra["harness_errors"] = [f"canonical state abstraction unsound: {unsound[:2]!r}"]
         return st
-    if sh["part"] in ("seq", "seq-core"):
-        names = R.NAMES if sh["alpha"] == "full" else R.CORE12
+    if sh["part"] in ("seq", "seq-core", "seq-mid"):
+        names = R.NAMES if sh["alpha"] == "full" else (R.MID32 if sh["alpha"] == "mid" else R.CORE12)
         prefix = [names[i] for i in sh["prefix"]]
         L = sh["L"]
         minlen = sh.get("minlen", 0)
